@@ -144,8 +144,8 @@ PROPS = {
             "n": (150, 2000), "relations": [("refit_vs_fresh", REL.gen_c07, REL.run_c07, (200, 4000))],
             "rule": "random prior history (training, arm changes, warm start, queries), then fit(D) with D smaller/larger/other width, compared with a "
                     "fresh bandit given the same generator state; non-trivial = prior history trained"},
-    "C08": {"gen": g_c08, "fields": ("out_keys", "arms"), "functional": True, "n": (300, 6000),
-            "relations": [("keys_shape_invariant", g_c08, REL.run_c08, (300, 6000))],
+    "C08": {"gen": g_c08, "fields": ("out_keys", "arms"), "functional": True, "n": (300, 3000),
+            "relations": [("keys_shape_invariant", g_c08, REL.run_c08, (300, 3000))],
             "rule": "histories interleaving arm changes, training, warm start and queries with m in {None,1,2,3,5}; label styles int/str/float; "
                     "half of the contextual cases run with n_jobs in {2,3,4,-1} (threading) and extra queries of 2..9 rows around the job count; "
                     "only arms, keys, key order and result shapes are compared; non-trivial = >= 1 query",
